@@ -282,7 +282,10 @@ META = {
                 "empty line for an empty or rejected input (C20_line_eq_library); the whole output is the concatenation of one block "
                 "per input line in both modes (C20_output_eq_blocks); parsing the tokenised line gives back the un-normalised input "
                 "line (C20_surfaces_concat, via C03_roundtrip); and once the predictor is built no input stream and no flag combination "
-                "makes the tool panic (C20_no_crash, all four flags incl. tag scores). evaluate is modelled up to its integer counts. "
+                "makes the tool panic (C20_no_crash, all four flags incl. tag scores). evaluate is modelled up to its integer counts, and the "
+                "counting loops are characterised without reference to a loop: TP/TN/FP/FN as position counts (C20_eval_char_counts); "
+                "n_cor / n_sys / n_ref of --metric word = common words with equal tag rows / system words / reference words for every "
+                "list of lines (C20_eval_word_counts), whose hypotheses every counted line meets (C20_eval_line_wf). "
                 "Tied to /repo by running the REAL predict and evaluate binaries (built from the working tree) on generated streams x "
                 "all 16 / 8 flag combinations x wsconst sets, comparing stdout and exit status with the model and with a per-line "
                 "library pipeline in the harness; evaluate's P/R/F1 are compared as text against the same f64 expressions.",
